@@ -43,6 +43,9 @@ def episodes(prop, tier, seed):
         if not q:
             out["rand-release"] = (gen_rcl.random_episodes(seed + 1, 5000) + gen_rcl.recipe_episodes(seed + 1), "release")
             out["huge-rear"] = (gen_rcl.huge_rear_episodes(seed), "release")
+        else:
+            # one 2 MB string in the quick tier too: the only way into the 4-byte rear-length code
+            out["huge-rear"] = (gen_rcl.huge_rear_episodes(seed)[-1:], "verif")
     if prop == "C12":
         out["ood"] = (gen_rcl.ood_episodes(seed, 400 if q else 15000), "verif")
         if not q:
